@@ -326,8 +326,7 @@ def run(prog, rep):
         ("C14.constructor-private-list", "the constructor does not keep the caller's list"),
     ]:
         rep.rule(rid, txt)
-    for anchor in ("no_repeated_dimensions",):
-        prog.method("DimensionSet", anchor)
+    prog.cls("DimensionSet")
     L = lists_over(alpha)
     fails = {}
     for part in pmap(work, [(alpha, c) for c in split(L, 16 if alpha == "abc" else 64)], prog, rep):
